@@ -107,7 +107,13 @@ def check_return(ctx, year, r, case):
             if name in vals and isinstance(vals[name], (int, float)) and not isinstance(vals[name], bool):
                 ctx.count('nonneg_checks')
                 if vals[name] < -1e-9:
-                    ctx.violation(f'{year}:negative:{base}.{ln}', f'{year}: {name} = {vals[name]} is negative ({why})', case)
+                    s31, tax18 = g(vals, '1040_s3.1'), g(vals, '1040.18')
+                    if year >= 2022 and name in ('1040.19', '1040_s8812.13', '1040_s8812.14') and s31 > tax18 + 0.005:
+                        # one root cause, one bucket: Schedule 3 line 1 is not limited to the tax (known finding)
+                        ctx.violation(f'{year}:negative-credit:foreign-tax-credit-above-tax', f'{year}: {name} = {vals[name]} is negative ({why}): Schedule 3 line 1 = {s31} '
+                                      f'exceeds the tax on Form 1040 line 18 = {tax18}, so Credit Limit Worksheet A goes below zero', case)
+                    else:
+                        ctx.violation(f'{year}:negative:{base}.{ln}', f'{year}: {name} = {vals[name]} is negative ({why})', case)
         for ln in NONNEG['ratios_at_most_one'].get(base, []):
             name = f'{fname}.{ln}'
             if name in vals and (vals[name] > 1.0 + 1e-9 or vals[name] < -1e-9):
@@ -120,7 +126,11 @@ def shard(ctx, k, payload):
 
     def body(data):
         p = data.draw(scenario.personas())
-        bias = data.draw(st.sampled_from(['none', 'owes', 'refund', 'big_deductions', 'low_income_nc', 'apply_refund', 'credits_over_tax', 'interest_refund', 'nc_refund_with_use_tax', 'nc_use_tax_credit']))
+        bias = data.draw(st.sampled_from(['none', 'owes', 'refund', 'big_deductions', 'low_income_nc', 'apply_refund', 'credits_over_tax', 'interest_refund', 'nc_refund_with_use_tax', 'nc_use_tax_credit', 'dependents_credits_over_tax']))
+        if bias == 'dependents_credits_over_tax':
+            # little tax, a foreign tax credit, and a dependent who gives the credit for other dependents / child tax credit
+            p.update(n_w2=0, wage_level='low', n_int=3, n_div=0, n_r=0, huge_interest=True, foreign_tax=True, itemize=False,
+                     amount_bias='large', deps=[data.draw(st.sampled_from(['odc', 'ctc']))], s199a=False, ira='none', n_g=0, s1_income=False)
         if bias == 'nc_use_tax_credit':
             # few out-of-state purchases on which another state's sales tax was paid (worksheet line 3 against line 2)
             p.update(forms=['1040', 'nc_d-400'], use_tax='records', small_purchases=True, n_1098=max(1, p['n_1098']))
